@@ -780,6 +780,32 @@ def check_C06(A: Analysis, tier):
                             A.p.loc(c["func"], c["node"]))
     rules.append(rb)
 
+    rg6 = Rule("C06", "C06.g", "scenario `pid and expected size given`: wherever store_object goes on to tag, it has established that the measured size "
+               "of the temp file equals the expected size, for every admissible expected size (the checker admits all integers >= 1)", floor=2)
+
+    def size_given(atom):
+        if atom[0] == "isnone" and atom[1] in (V(P("expected_object_size")), V(P("pid"))):
+            return False
+        return None
+
+    for m in ALL_MODES:
+        it_z = A.run(Q("store_object"), m, tagk="size-given", assume=size_given)
+        for c in it_z.calls:
+            if c["callee"] == Q("tag_object"):
+                rg6.ob()
+                rg6.inst(f"store_object [{m}] with an expected size: tag_object at line {c['node'].lineno}")
+                ok_z = False
+                for f_, pol in c["state"].facts:
+                    for a_ in F.atoms_of(f_):
+                        if a_[0] == "cmp" and a_[1] in ("==", "!=") and V(P("expected_object_size")) in (a_[2], a_[3]):
+                            other = a_[3] if a_[2] == V(P("expected_object_size")) else a_[2]
+                            if other and all(tag(t) == "probe" and t[1] == "getsize" for t in other) and F.implied(c["state"].facts, a_) is (a_[1] == "=="):
+                                ok_z = True
+                if not ok_z:
+                    rg6.fail(c["func"], c["node"], "the pid is tagged on a path on which the measured size was not compared (equal) with the expected size that was "
+                             "given: for some admissible expected size the size check is skipped and a wrong size is accepted", A.p.loc(c["func"], c["node"]))
+    rules.append(rg6)
+
     rc = Rule("C06", "C06.c", "an invalid verdict for a pid removes the temp file before raising, and the "
               "already-stored branch removes it in a finally", floor=2)
     for n in ast.walk(vf.node):
@@ -999,6 +1025,20 @@ def check_C13(A: Analysis, tier):
                            and any(c.cls == "TMP" and c.key == C(ent) for c in primary(ev.classes[0]))]
                     if not rem:
                         rc.fail(fn, "except around shutil.move", "a failed move into place does not remove the temp file", A.p.loc(fn, h))
+                    # at the handler's own raise statements: wherever it gives up with nothing at the destination, the temp file is gone
+                    dest_cls = "OBJ" if ent == "objects" else "META"
+                    for (rf_, rn_, s_, rctx) in it.raise_sites:
+                        if rf_ is not fn or not any(rn_ is x for b_ in h.body for x in ast.walk(b_)):
+                            continue
+                        rc.ob()
+                        # (metadata: the temp file is removed through the overloaded look-up of _delete, whose "not found -> None"
+                        # result the join after its try/except no longer correlates with the temp set; only the objects handler is
+                        # judged per path, the metadata handler by the existence of the removal above)
+                        absent = ent == "objects" and any(F.implied(s_.facts, a_) is False for a_ in probe_atoms(s_.facts, "isfile", dest_cls))
+                        left = [t for t in s_.tmps if classify(t).cls == "TMP" and classify(t).key == C(ent)]
+                        if absent and left:
+                            rc.fail(fn, rn_, "after a failed move (nothing at the permanent address) the handler gives up here while the temp file can "
+                                    "still be there: a failed store leaks a file in the tmp directory", A.p.loc(fn, rn_))
     it = A.run(Q("_write_to_tmp_file_and_get_hex_digests"), "th")
     for k, l, st, rv in it.exits:
         rc.ob()
@@ -1472,6 +1512,32 @@ def check_C17(A: Analysis, tier):
         rc.fail(cd, "isinstance tests", f"_check_arg_data admits {types}; documented: str, Path, buffered stream", A.p.loc(cd, cd.node))
     if not any(isinstance(r, ast.Raise) for r in ast.walk(cd.node)):
         rc.fail(cd, "raise TypeError", "_check_arg_data no longer raises", A.p.loc(cd, cd.node))
+    # scenario runs: which kinds of argument it lets through
+    dp = cd.node.args.args[0].arg
+
+    def kind_of(which):
+        def asm(atom):
+            if atom[0] == "isinstance" and atom[1] == V(P(dp)):
+                return atom[2] == which
+            return None
+        return asm
+
+    for which in (None,) + tuple(types):
+        it_k = A.run(Q("_check_arg_data"), "th", tagk=f"data-is-{which}", assume=kind_of(which))
+        rets = [st_ for k_, l_, st_, rv_ in it_k.exits if k_ == "return"]
+        rc.ob()
+        rc.inst(f"_check_arg_data with an argument of type {which or 'other'}: {'accepted' if rets else 'rejected'}")
+        if which is None and rets:
+            rc.fail(cd, "data of another type", "_check_arg_data lets an argument through that is neither a string, a Path nor a buffered stream: "
+                    "the call fails later, after it has changed the store", A.p.loc(cd, cd.node))
+        if which is not None and not rets:
+            rc.fail(cd, f"data of type {which}", f"_check_arg_data rejects every {which} argument", A.p.loc(cd, cd.node))
+        if which == "str":
+            for st_ in rets:
+                ok_e = any(a_[0] == "cmp" and a_[1] in ("==", "!=") and V(C("")) in (a_[2], a_[3])
+                           and F.implied(st_.facts, a_) is (a_[1] != "==") for f_, pol in st_.facts for a_ in F.atoms_of(f_))
+                if not ok_e:
+                    rc.fail(cd, "empty data string", "_check_arg_data lets an empty / blank path string through", A.p.loc(cd, cd.node))
     rules.append(rc)
 
     rd = Rule("C17", "C17.d", "retrieve_object, retrieve_metadata and get_hex_digest reach no state-changing primitive; "
